@@ -399,6 +399,63 @@ Definition setrt_body (tbl : table) (sys : system) (st : set) (probes : list sx)
                             end) ps;;
   Ok (SL [SB sym_ok; SB s1; r; SL rows; sx_bool (C11_region.c11_region (pv_of tbl) sys st)]).
 
+(* the region of the C03 composition theorems on a requirement given as alternatives of comparator
+   texts: every comparator is one span; along each and-list the side conditions of
+   C03_and_partial hold (good_span_b, no_point_contact_b) and the row stays one span; the
+   collected spans lie in the domain of C03_or_partial (c09_dom_b).  The shape of the comparators
+   themselves (operator + full release version) is checked by the driver on the text. *)
+Definition single_span (tbl : table) (sys : system) (t : bytes) : res (option span) :=
+  match parse_constraint (pv_of tbl) sys t with
+  | Ok c => Ok (match set_span (c_set c) with [s] => Some s | _ => None end)
+  | Err _ => Ok None
+  | Panic p => Panic p
+  | OutOfFuel => OutOfFuel
+  end.
+
+Fixpoint conj_region (tbl : table) (sys : system) (cur : span) (texts : list sx) : res (option span) :=
+  match texts with
+  | [] => Ok (Some cur)
+  | SB t :: rest =>
+      o <- single_span tbl sys t;;
+      match o with
+      | None => Ok None
+      | Some s0 =>
+          if Inter_proofs.good_span_b sys cur && Inter_proofs.good_span_b sys s0 && Inter_proofs.no_point_contact_b sys cur s0 then
+            match inter_row cur [s0] with
+            | Ok [r] => conj_region tbl sys r rest
+            | Ok _ => Ok None
+            | Err _ => Ok None
+            | Panic p => Panic p
+            | OutOfFuel => OutOfFuel
+            end
+          else Ok None
+      end
+  | _ :: _ => Ok None
+  end.
+
+Fixpoint disj_region (tbl : table) (sys : system) (alts : list sx) : res (option (list span)) :=
+  match alts with
+  | [] => Ok (Some [])
+  | SL (SB t0 :: texts) :: rest =>
+      o <- single_span tbl sys t0;;
+      match o with
+      | None => Ok None
+      | Some s0 =>
+          r <- conj_region tbl sys s0 texts;;
+          r2 <- disj_region tbl sys rest;;
+          Ok (match r, r2 with Some x, Some l => Some (x :: l) | _, _ => None end)
+      end
+  | _ :: _ => Ok None
+  end.
+
+Definition c03_region (tbl : table) (sys : system) (alts : list sx) : res bool :=
+  r <- disj_region tbl sys alts;;
+  Ok (match r with
+      | Some [x] => true                 (* one alternative: canon leaves a single span alone *)
+      | Some (x :: l) => Set_proofs.c09_dom_b sys (x :: l)
+      | _ => false
+      end).
+
 Definition k_creqseq : bytes := [99;114;101;113;115;101;113]%N.
 
 (* one resolve.MatchRequirement call: membership of every candidate.  The model has no state:
@@ -587,7 +644,8 @@ Definition run_Constraint (kind : bytes) (a : sx) : option sx :=
               | Some sys, Some tbl =>
                   sx_out (r <- disj_events tbl sys alts;;
                           ev <- canon_events (fst r);;
-                          Ok (SL [SB sym_ok; SL (snd r ++ ev)]))
+                          reg <- c03_region tbl sys alts;;
+                          Ok (SL [SB sym_ok; SL (snd r ++ ev); sx_bool reg]))
               | _, _ => badcase
               end
           | _ => badcase end)
